@@ -140,10 +140,27 @@ fn gen_c15(seed: u64, idx: usize, _tier: Tier) -> C15Scenario {
                     if rng.chance(1, 6) {
                         b.extend_from_slice(*rng.pick(&[&b" caf\xe9"[..], &b" \xe2\x82"[..], &b" \x00\xff\xfe"[..]]));
                     }
+                    // one line in twelve is longer than 8 KiB and made of multi-byte characters
+                    if rng.chance(1, 12) {
+                        let unit = "é✓日本語ß-";
+                        let reps = (8300 + rng.below(9000)) / unit.len();
+                        b.extend_from_slice(format!(" {}{}", "x".repeat(rng.below(7)), unit.repeat(reps)).as_bytes());
+                    }
                     b.push(b'\n');
                     OutStep { fd, hex: hex(&b), pause_ms: 0, close: false }
                 })
-                .collect();
+                .collect::<Vec<OutStep>>();
+            // one task in five ends a stream without a trailing newline
+            let mut outs = outs;
+            if rng.chance(1, 5) {
+                if let Some(last) = outs.last_mut() {
+                    let mut bytes = crate::proto::unhex(&last.hex);
+                    if bytes.last() == Some(&b'\n') {
+                        bytes.pop();
+                        last.hex = hex(&bytes);
+                    }
+                }
+            }
             Behav { command: c.command.clone(), target: c.target.clone(), outs, code: 0, exit_pause_ms: 0, early_exit: false, hold_pipes_ms: 0 }
         })
         .collect();
@@ -297,6 +314,20 @@ fn exec_c15(sc_in: &C15Scenario, paired: bool) -> Outcome {
             }
             if ctx.trace.code() != ctx2.trace.code() {
                 out.violate("exit_with_listener", "differs_from_run_without_listener", format!("exit {:?} with listener, {:?} without", ctx.trace.code(), ctx2.trace.code()));
+            }
+            // the children themselves must not be able to tell whether a listener is attached: same environment
+            for h in &ctx.trace.helpers {
+                if let Some(h2) = ctx2.trace.helpers.iter().find(|x| x.command == h.command && x.target == h.target) {
+                    let norm = |e: &[u8], root: &std::path::Path| String::from_utf8_lossy(e).replace(&*root.to_string_lossy(), "$W");
+                    let (ea, eb) = (norm(&h.env, &w.root), norm(&h2.env, slot2.as_ref().map(|x| x.root.as_path()).unwrap_or(std::path::Path::new("/nonexistent"))));
+                    if ea != eb {
+                        let va: BTreeSet<&str> = ea.split('\0').collect();
+                        let vb: BTreeSet<&str> = eb.split('\0').collect();
+                        let diff: Vec<&&str> = va.symmetric_difference(&vb).take(6).collect();
+                        out.violate("status_with_listener", "child_environment_differs", format!("the environment of '{}' for '{}' differs between a run with a listener and one without: {:?} (a child may behave differently, so outcome and logs may)", h.command, h.target, diff));
+                        break;
+                    }
+                }
             }
             // stored logs of members that were still running when the failure struck: what they had written
             // 120 ms earlier must be stored in both runs or in neither
@@ -480,7 +511,7 @@ fn gen_c20(seed: u64, idx: usize, tier: Tier) -> C20Scenario {
         }
         targets.push(TargetSpec { path, ..Default::default() });
     }
-    let spec = WorldSpec { targets, cmd_files, files: vec![], sequences: vec![], max_retained_runs: 2, gitignore: vec![], git: false };
+    let spec = WorldSpec { targets, cmd_files, files: vec![], sequences: vec![], max_retained_runs: 2, gitignore: vec![], git: false, lock_host: None };
     let mut script = RunScript::simple(RunOpts { commands: cmds.clone(), ..Default::default() });
     let per_task = rng.range(6, 20);
     // one scenario in eight: a long stall of the listener while more is written than the connection can
